@@ -5,6 +5,7 @@ correspondence harness executes against the real code and compares with `Mux.app
 -/
 import Penguin.Lemmas.PairCor
 import Penguin.Lemmas.PairSettle
+import Penguin.Model.MuxExt
 
 namespace Penguin.Pair
 open Penguin.Mux
@@ -13,5 +14,52 @@ theorem stim_history_inv {oa ob : Opts} {ra rb : List Nat} (c : Cfg oa ob ra rb)
     (h : stimRun (init oa ob ra rb) l = some q) : Inv q := by
   obtain ⟨as, rfl⟩ := stimRun_is_run _ _ _ h
   exact reach_inv c as
+
+/-! ### The `dropmany` stimulus (several streams dropped back to back, then the task runs)
+
+`Mux.applyDropMany` — what the driver executes for the harness's `dropmany` — is a run of the
+fine-grained actions too: `dropStream`, …, `dropStream`, then the task's `unpark` / `notif` …, `xmit` …,
+`runDone`, `runRetries`, `xmit` …; so the invariant (and everything read off it) holds after it. -/
+
+/-- The endpoint after the drop calls alone. -/
+theorem runL_drops_a (p q : PS) (hs : List Nat) (h : runL p (hs.map Act.dropStream) = some q) :
+    q.a = hs.foldl (fun e h => (appDropStream e h).1) p.a ∧ q.ab = p.ab ∧ q.b = p.b ∧ q.ba = p.ba := by
+  induction hs generalizing p with
+  | nil => simp only [List.map_nil, runL, Option.some.injEq] at h; subst h; exact ⟨rfl, rfl, rfl, rfl⟩
+  | cons x rest ih =>
+    simp only [List.map_cons, runL] at h
+    cases hx : stepL p (.dropStream x) with
+    | none => rw [hx] at h; cases h
+    | some p1 =>
+      rw [hx] at h
+      simp only [Option.bind_some] at h
+      obtain ⟨h1, h2, h3, h4⟩ := ih p1 h
+      simp only [stepL] at hx
+      split at hx
+      · cases hx
+      · cases hx
+        exact ⟨h1, h2, h3, h4⟩
+
+/-- If every one of the handles is live when its turn comes (the drops are enabled), the task is idle
+    afterwards, the sink takes everything and the id script does not run out, then the state after
+    the `dropmany` stimulus is reached by a run of fine-grained actions. -/
+theorem dropMany_fine (p q : PS) (hs : List Nat) (hen : runL p (hs.map Act.dropStream) = some q)
+    (hidle : Idle q.a) (hsr : q.a.sinkRoom = none) (hr : (settle q.a).1.rng ≠ []) :
+    ∃ acts, runL p (hs.map Act.dropStream ++ acts) =
+      some { q with a := (applyDropMany p.a hs).1, ab := p.ab ++ wiresOf (applyDropMany p.a hs).2.2 } := by
+  obtain ⟨ha, hab, _, _⟩ := runL_drops_a p q hs hen
+  obtain ⟨acts, hacts⟩ := settle_fine q hidle hsr hr
+  refine ⟨acts, ?_⟩
+  rw [runL_append, hen]
+  simp only [Option.bind_some, hacts, applyDropMany, ← ha, hab]
+
+/-- … hence the invariant holds after a `dropmany` stimulus applied to any reachable state. -/
+theorem dropMany_inv (p q : PS) (hp : Inv p) (hs : List Nat) (hen : runL p (hs.map Act.dropStream) = some q)
+    (hidle : Idle q.a) (hsr : q.a.sinkRoom = none) (hr : (settle q.a).1.rng ≠ []) :
+    Inv { q with a := (applyDropMany p.a hs).1, ab := p.ab ++ wiresOf (applyDropMany p.a hs).2.2 } := by
+  obtain ⟨acts, h⟩ := dropMany_fine p q hs hen hidle hsr hr
+  have has := run_of_runL p _ _ h
+  rw [← has]
+  exact run_inv p _ hp
 
 end Penguin.Pair
